@@ -10,6 +10,40 @@ import stix2.base
 from .utils import format_datetime
 
 
+def _key_index(key, ordered_keys):
+    """
+    The position a key is given in "pretty" output: keys which are
+    numbers-as-strings (e.g. of cyber-observable mappings) use their int
+    value; other keys their position among the container's keys.
+    """
+    if key.isdigit():
+        try:
+            return int(key)
+        except ValueError:
+            # e.g. a superscript digit
+            pass
+    return ordered_keys.index(key)
+
+
+def _pretty_order(value, obj_keys=None):
+    """
+    Put mappings into the order of "pretty" output: the properties of a STIX
+    object in the order the object has them, the keys of a plain dictionary
+    sorted.  Each mapping is ordered on its own; STIX objects nested in the
+    value are left to the encoder, which passes them through here in turn.
+    """
+    if isinstance(value, dict):
+        if obj_keys is None:
+            obj_keys = sorted(value)
+        return {
+            key: _pretty_order(value[key])
+            for key in sorted(value, key=lambda k: _key_index(k, obj_keys))
+        }
+    elif isinstance(value, (list, tuple)):
+        return [_pretty_order(elem) for elem in value]
+    return value
+
+
 class STIXJSONEncoder(json.JSONEncoder):
     """Custom JSONEncoder subclass for serializing Python ``stix2`` objects.
 
@@ -19,6 +53,9 @@ class STIXJSONEncoder(json.JSONEncoder):
     An example of this type of property include the ``revoked`` common property.
     """
 
+    # whether to put the properties into the order of "pretty" output
+    pretty_order = False
+
     def default(self, obj):
         if isinstance(obj, (dt.date, dt.datetime)):
             return format_datetime(obj)
@@ -26,6 +63,8 @@ class STIXJSONEncoder(json.JSONEncoder):
             tmp_obj = dict(obj)
             for prop_name in obj._defaulted_optional_properties:
                 del tmp_obj[prop_name]
+            if self.pretty_order:
+                tmp_obj = _pretty_order(tmp_obj, list(obj))
             return tmp_obj
         else:
             return super(STIXJSONEncoder, self).default(obj)
@@ -39,10 +78,14 @@ class STIXJSONIncludeOptionalDefaultsEncoder(json.JSONEncoder):
     included in the serialized output.
     """
 
+    pretty_order = False
+
     def default(self, obj):
         if isinstance(obj, (dt.date, dt.datetime)):
             return format_datetime(obj)
         elif isinstance(obj, stix2.base._STIXBase):
+            if self.pretty_order:
+                return _pretty_order(dict(obj), list(obj))
             return dict(obj)
         else:
             return super(STIXJSONIncludeOptionalDefaultsEncoder, self).default(obj)
@@ -71,7 +114,8 @@ def serialize(obj, pretty=False, include_optional_defaults=False, **kwargs):
         operation it is recommended to set ``pretty=False``.
 
         When ``pretty=True`` the following key-value pairs will be added or
-        overridden: indent=4, separators=(",", ": "), item_sort_key=sort_by.
+        overridden: indent=4, separators=(",", ": "), item_sort_key=None,
+        sort_keys=False.
     """
     with io.StringIO() as fp:
         fp_serialize(obj, fp, pretty, include_optional_defaults, **kwargs)
@@ -102,18 +146,29 @@ def fp_serialize(obj, fp, pretty=False, include_optional_defaults=False, **kwarg
         operation it is recommended to set ``pretty=False``.
 
         When ``pretty=True`` the following key-value pairs will be added or
-        overridden: indent=4, separators=(",", ": "), item_sort_key=sort_by.
+        overridden: indent=4, separators=(",", ": "), item_sort_key=None,
+        sort_keys=False.
     """
-    if pretty:
-        def sort_by(element):
-            return find_property_index(obj, *element)
-
-        kwargs.update({'indent': 4, 'separators': (',', ': '), 'item_sort_key': sort_by})
-
     if include_optional_defaults:
-        json.dump(obj, fp, cls=STIXJSONIncludeOptionalDefaultsEncoder, **kwargs)
+        encoder = STIXJSONIncludeOptionalDefaultsEncoder
     else:
-        json.dump(obj, fp, cls=STIXJSONEncoder, **kwargs)
+        encoder = STIXJSONEncoder
+
+    if pretty:
+        # Every mapping is put in order on its own, as it is encoded.  (Sorting
+        # all items by where a search for an equal key and value first finds
+        # one goes wrong when the same key and value occur in two places.)
+        class encoder(encoder):
+            pretty_order = True
+
+        kwargs.update({
+            'indent': 4, 'separators': (',', ': '),
+            'item_sort_key': None, 'sort_keys': False,
+        })
+        if not isinstance(obj, stix2.base._STIXBase):
+            obj = _pretty_order(obj)
+
+    json.dump(obj, fp, cls=encoder, **kwargs)
 
 
 def _find(seq, val):
